@@ -756,6 +756,9 @@ pub fn gen_intern(seed: u64, tier: &str) -> Vec<String> {
         }
         groups.push(vec!["ab".into(), "ba".into(), "a".into(), "b".into(), "abab".into(), "aabb".into(), "ab\0".into(), "\0ab".into()]);
         groups.push(vec!["é".into(), "\u{c3}".into(), "\u{a9}".into(), "\u{c3}\u{a9}".into(), "e\u{301}".into()]);
+        // corpus of past failures: two 16-byte texts with the same 64-bit Fx hash (rustc-hash 2.1 string hash; found by a seeded change's
+        // author from a symmetry of that hash, round 7) -- a back end that takes the hash for the string merges them
+        groups.push(vec!["PĹm:tQzPĹm:tQG".into(), "ǿj뜔wpǿj뜔wM".into(), "PĹm:tQzPĹm:tQz".into()]);
         for b in &bes {
             for (gi, g) in groups.iter().enumerate() {
                 for rev in [false, true] {
